@@ -140,6 +140,11 @@ def run_ctor(case):
         ("dict + dims", lambda: da.DimArray(vals, axes={d: list(l) for d, l in zip(dims, labels)}, dims=list(dims))),
         ("dict (reversed key order) + dims", lambda: da.DimArray(vals, axes={d: list(l) for d, l in list(zip(dims, labels))[::-1]}, dims=list(dims))),
         ("DimArray(other)", lambda: da.DimArray(core.build(spec))),
+        # the data handed over as a DimArray that carries OTHER labels and names, together with explicit axes: the explicit axes count
+        ("DimArray(other-labelled DimArray, axes=pairs)", lambda: da.DimArray(da.DimArray(vals, axes=[("o%d" % i_, np.arange(len(l)) + 50) for i_, l in enumerate(labels)]),
+                                                                                  axes=[(d, list(l)) for d, l in zip(dims, labels)])),
+        ("DimArray(other-labelled DimArray, label lists + dims)", lambda: da.DimArray(da.DimArray(vals, axes=[("o%d" % i_, np.arange(len(l)) + 50) for i_, l in enumerate(labels)]),
+                                                                                          axes=[x.copy() for x in larr], dims=list(dims))),
         ("array()", lambda: da.array(vals, axes=[x.copy() for x in larr], dims=list(dims))),
         ("copy of a copy", lambda: core.build(spec).copy().copy()),
     ]
@@ -165,6 +170,7 @@ def run_ctor(case):
     # helpers: same axes, prescribed fill
     if nd:
         helpers = [("zeros", lambda: da.zeros(axes=[x.copy() for x in larr], dims=list(dims)), 0.0),
+                   ("zeros with a consistent shape=", lambda: da.zeros(axes=[(d, list(l)) for d, l in zip(dims, labels)], shape=tuple(vals.shape)), 0.0),
                    ("zeros (name, Axis of another name) pairs", lambda: da.zeros(axes=[(d, da.Axis(x.copy(), "other_" + d)) for d, x in zip(dims, larr)]), 0.0), ("ones pairs", lambda: da.ones(axes=[(d, list(l)) for d, l in zip(dims, labels)]), 1.0),
                    ("nans Axis", lambda: da.nans(axes=[da.Axis(x.copy(), d) for d, x in zip(dims, larr)]), float("nan")),
                    ("empty", lambda: da.empty(axes=[x.copy() for x in larr], dims=list(dims)), None),
@@ -209,6 +215,21 @@ def run_ctor(case):
         for oname, other in others:
             for aname, kw in axforms:
                 neg.append(("data of another dimensionality (%s) with %s" % (oname, aname), lambda other=other, kw=kw: da.DimArray(other, **kw())))
+    if nd >= 1:
+        other = da.DimArray(vals, axes=[("o%d" % i_, np.arange(len(l)) + 50) for i_, l in enumerate(labels)])
+        bad1 = [list(l) for l in labels]
+        bad1[0] = bad1[0] + [bad1[0][0] if bad1[0] else 1]
+        neg.append(("DimArray data with explicit axes of the wrong size", lambda: da.DimArray(other, axes=[(d, list(l)) for d, l in zip(dims, bad1)])))
+        # helper functions given axes AND a shape= that disagrees with them (transposed, too short, too long)
+        for hname in ("zeros", "ones", "empty", "nans"):
+            wrong = [tuple(vals.shape) + (1,), tuple(vals.shape)[:-1]] + ([tuple(vals.shape)[::-1]] if tuple(vals.shape)[::-1] != tuple(vals.shape) else [])
+            wrong.append(tuple(n_ + 1 for n_ in vals.shape))
+            for w_ in wrong:
+                neg.append(("%s(axes=..., shape=%s) against axes of shape %s" % (hname, list(w_), list(vals.shape)),
+                            lambda hname=hname, w_=w_: getattr(da, hname)(axes=[(d, list(l)) for d, l in zip(dims, labels)], shape=w_)))
+    if nd >= 2:
+        other2 = da.DimArray(vals, axes=[("o%d" % i_, np.arange(len(l)) + 50) for i_, l in enumerate(labels)])
+        neg.append(("DimArray data with explicit axes of duplicate names", lambda: da.DimArray(other2, axes=[(dims[0], list(l)) for l in labels])))
     if nd >= 2 and vals.T.shape != vals.shape:
         neg.append(("transposed values",lambda: da.DimArray(vals.T, axes=[x.copy() for x in larr], dims=list(dims))))
     if nd >= 2:
